@@ -110,6 +110,41 @@ impl Monitor for C07 {
     fn on_seal(&mut self, w: &World, ob: &SealObs, st: &mut Stats) -> Check {
         let s = ob.sealed;
         let hd = s.header();
+        // a header is a function of the state's own contents: asking the parent again, after a descendant
+        // was built on it, must give the header it had when it was sealed; asking twice gives the same answer
+        if let Some(parent) = ob.parent {
+            let ph = parent.header();
+            if let Some(rec) = w.headers.get(&ph.height.0) {
+                if *rec != ph && parent.header().height.0 + 1 == hd.height.0 {
+                    let mut fields = vec![];
+                    if rec.stakes_hash != ph.stakes_hash {
+                        fields.push("stakes_hash");
+                    }
+                    if rec.coins_hash != ph.coins_hash {
+                        fields.push("coins_hash");
+                    }
+                    if rec.history_hash != ph.history_hash {
+                        fields.push("history_hash");
+                    }
+                    if rec.transactions_hash != ph.transactions_hash {
+                        fields.push("transactions_hash");
+                    }
+                    if rec.pools_hash != ph.pools_hash {
+                        fields.push("pools_hash");
+                    }
+                    viol!(
+                        "header-of-sealed-state-changed-later",
+                        "the sealed state at height {} reported another header after block {} had been built on it (fields {:?})",
+                        ph.height,
+                        hd.height,
+                        fields
+                    );
+                }
+            }
+        }
+        if s.header() != hd {
+            viol!("header-not-stable", "header() of the same sealed state gave two different answers at height {}", hd.height);
+        }
         // (a) linkage
         if let Some(n) = self.net {
             if hd.network != n {
@@ -281,6 +316,7 @@ pub fn profile() -> Profile {
     let mut p = Profile::general();
     p.net_w = [30, 40, 15, 15, 0, 0, 0, 0, 0];
     p.p_mut = 15;
+    p.lead_blocks = 14;
     p
 }
 
@@ -290,13 +326,13 @@ pub fn run(ctx: &Ctx) -> (Outcome, String, Option<bool>) {
         p.max_steps = 30;
         p.max_txs = 10;
     }
-    let mut out = super::hist::run_histories(ctx, "histories", p.clone(), ctx.scale(100, 1500), C07::default);
+    let mut out = super::hist::run_histories(ctx, "histories", p.clone(), ctx.scale(450, 4500), C07::default);
     // perturbation pairs: the same plan under configurations that differ in one scalar, so that near-identical
     // states (differing only in fee pool / multiplier / one coin value / one stake) meet in the header<->contents maps
     let o = crate::runner::run_sharded(
         ctx,
         "perturbation-pairs",
-        ctx.scale(60, 800),
+        ctx.scale(200, 2000),
         || (crate::plan::arb_plan(&p), 0u8..5),
         |(plan, which), st, shard| {
             st.eval();
